@@ -145,7 +145,9 @@ func build(c Case) (*openapi3.T, error) {
 		op["parameters"] = opParams
 	}
 	if c.Body != "none" {
-		op["requestBody"] = M{"required": c.Body == "absent-required", "content": M{"application/json": M{"schema": M{"type": "object", "required": []any{"ok"}, "properties": M{"ok": M{"type": "boolean"}}}}}}
+		op["requestBody"] = M{"required": c.Body == "absent-required", "content": M{"application/json": M{"schema": M{"type": "object", "required": []any{"ok", "rid"}, "properties": M{"ok": M{"type": "boolean"},
+			// a required member a request does not send
+			"rid": M{"type": "string", "readOnly": true}}}}}}
 	}
 	if s := secJSON(c.OpSec); s != nil {
 		op["security"] = s
@@ -268,7 +270,7 @@ func check(c Case) (o h.Outcome) {
 		req.Header.Set("Cookie", strings.Join(cookies, "; "))
 	}
 	var calls []call
-	opts := &openapi3filter.Options{MultiError: c.Opts&1 != 0, ExcludeRequestBody: c.Opts&2 != 0, ExcludeRequestQueryParams: c.Opts&4 != 0, SkipSettingDefaults: !c.SetDefaults}
+	opts := &openapi3filter.Options{MultiError: c.Opts&1 != 0, ExcludeRequestBody: c.Opts&2 != 0, ExcludeRequestQueryParams: c.Opts&4 != 0, ExcludeReadOnlyValidations: c.Opts&8 != 0, SkipSettingDefaults: !c.SetDefaults}
 	if c.SetDefaults {
 		o.Class("defaults-written")
 	}
@@ -600,7 +602,7 @@ func gen(t *rapid.T) Case {
 	for _, s := range append(append([]string{}, schemes...), "s1/admin", "s1/read") {
 		c.Auth[s] = rapid.Bool().Draw(t, "auth:"+s)
 	}
-	c.Opts = rapid.IntRange(0, 7).Draw(t, "opts")
+	c.Opts = rapid.IntRange(0, 15).Draw(t, "opts")
 	c.SetDefaults = rapid.Bool().Draw(t, "setdefaults")
 	c.NoAuth = rapid.IntRange(0, 9).Draw(t, "noauth") == 0
 	if rapid.IntRange(0, 2).Draw(t, "prelude") == 0 {
